@@ -140,6 +140,28 @@ def sole_dependency_schema():
     return s
 
 
+def path_concat_schema():
+    """Group paths whose concatenation with `_` collides: a{b{c}, b_c}, a_b{c}, a{b_c{d}}, a_b{c_d}...  The generated
+    trait formulas name their parameters after the group path."""
+    from .. import refmodel
+    nid = S._ids()
+
+    def g(name, *subs, data=()):
+        return S.Group(name, nid(), [S.Field("x", nid(), "uint8")], list(subs), list(data))
+
+    msgs = [
+        S.Message("m1", 1, [], [g("a", g("b", g("c")), g("b_c")), g("a_b", g("c"))], []),
+        S.Message("m2", 2, [], [g("a", g("b_c", g("d"))), g("a_b", g("c_d"), g("c", g("d")))], []),
+        S.Message("m3", 3, [], [g("p", g("q", g("r", data=[S.Data("d", nid(), "varDataEncoding")])), g("q_r")), g("p_q", g("r")), g("p_q_r")], []),
+        S.Message("m4", 4, [], [g("num", g("in", g("group"))), g("num_in", g("group")), g("num_in_group")], []),
+    ]
+    s = S.Schema("pathcat", id=4, version=1, types=[S.std_header(), S.std_dimension(), S.std_vardata()], messages=msgs,
+                 description="group path concatenations", name="pathcat")
+    refmodel.fix_offsets(s)
+    refmodel.fit_ids_to_header(s)
+    return s
+
+
 def special_raw():
     from . import c12, c15, c16
     rng = C.rng_for(1, "c07-special")
@@ -163,12 +185,12 @@ def main():
     quick = rep.tier == "quick"
     schemas = S.corpus() + S.random_schemas(rep.seed, 3 if quick else 60) + S.clash_schemas(rep.seed, 6 if quick else 60)
     schemas += [hostile_text_schema(), float_literal_schema(),
-                libnames_schema(), sole_dependency_schema()] + S.pair_clash_schemas()
+                libnames_schema(), sole_dependency_schema(), path_concat_schema()] + S.pair_clash_schemas()
     sparse = S.pair_clash_schemas(sparse=True)
     if quick:
         # sibling and nested group pairs always; a seeded sample of the other positions
-        keep = [s for s in sparse if s.name.startswith(("ps_sib", "ps_nest"))]
-        rest = [s for s in sparse if not s.name.startswith(("ps_sib", "ps_nest"))]
+        keep = [s for s in sparse if s.name.startswith(("ps_sib", "ps_nest", "ps_msgself"))]
+        rest = [s for s in sparse if not s.name.startswith(("ps_sib", "ps_nest", "ps_msgself"))]
         sparse = keep + C.rng_for(rep.seed, "c07-sparse").sample(rest, 30)
     schemas += sparse
     hdr_cfgs = [build.Cfg("g++", "17", "O0")] if quick else [build.Cfg(c, s, "O0") for c, s in build.all_compiler_std()]
@@ -182,9 +204,12 @@ def main():
     rep.rule("schemas: covering corpus (6), seeded random (%d), clash-pool names (%d), hostile text, float literal forms, "
              "library-member names, a sole-dependency schema (every type used from exactly one construct, so every #include "
              "must come from it: field types at depth 0-2, data and dimension types, enums reached only through valueRef, refs in "
-             "composites), 7 systematic pair-clash schemas (every ordered pair of {X, X_entry, X_0, X_0_entry, X_1, entry, "
+             "composites, case-differing references), a path-concatenation schema (group paths whose `_`-joined names collide), "
+             "7 systematic pair-clash schemas (every ordered pair of {X, X_entry, X_0, X_0_entry, X_1, entry, "
              "X_entry_0} as sibling groups, nested groups, group + entry member, field + group, group + data, message + "
-             "group), the same pairs as single-message schemas (all 91 sibling/nested pairs + 30 sampled others in quick, "
+             "group), the same pairs as single-message schemas plus 36 schemas in which a message shares its name with one of its "
+             "own members while earlier messages' groups occupy the mangled candidates (all 91 sibling/nested pairs, these 36 "
+             "and 30 sampled others in quick, "
              "all 273 in thorough; message header, top-level header and touch TU compiled), and three special-purpose raw "
              "schemas; per accepted schema every generated header is "
              "compiled alone (-fsyntax-only) and the touch-everything TU is compiled, under the configurations listed. An "
